@@ -38,12 +38,13 @@ Theorem C18_prefix_dispatch :
     end.
 Proof. exact prefix_dispatch. Qed.
 
-(* token: the byte count regenerated from the source is 24; the encoding of 24 bytes is 39 characters of the 32-symbol alphabet *)
+(* token: the byte count regenerated from the source is 24, and (also read off the source on every run) generate_token fills exactly these bytes
+   with rand::rng().fill_bytes and encodes them; the encoding of 24 bytes is 39 characters of the 32-symbol alphabet *)
 Theorem C18_token_shape :
-  c_token_bytes = 24 /\
+  c_token_bytes = 24 /\ c_token_from_os_rng = true /\
   forall bytes, length bytes = 24%nat ->
     length (to_nix_base32 bytes) = 39%nat /\ Forall (fun c => In c base32_chars) (to_nix_base32 bytes).
-Proof. split; [vm_compute; reflexivity|]. intros bytes H. split; [apply token_length; exact H|apply token_alphabet]. Qed.
+Proof. split; [vm_compute; reflexivity|]. split; [reflexivity|]. intros bytes H. split; [apply token_length; exact H|apply token_alphabet]. Qed.
 
 (* the encoding loses nothing: different 24-byte strings give different tokens (all 192 random bits are in the token) *)
 Theorem C18_token_injective :
